@@ -240,3 +240,56 @@ Check C11_collect_single_in_place :
     fs_is_file f input = true -> fs_is_dir f input = false ->
     collect f input None = Some items ->
     forall s o, In (s, o) items <-> (s = input /\ o = input /\ is_lua_path input = true).
+
+Theorem C11_stateless_run :
+  forall (cfg st : Type) (xform : cfg -> path -> content -> fs -> option content * list path)
+         (sxform : st -> cfg -> path -> content -> fs -> (option content * list path) * st)
+         (ff : bool) (c : cfg),
+    stateless cfg st xform sxform ->
+    forall items f s,
+      fst (run_batch_st cfg st sxform ff c items f s) = run_batch cfg xform ff c items f.
+Proof. exact stateless_run. Qed.
+Print Assumptions C11_stateless_run.
+Check C11_stateless_run :
+  forall (cfg st : Type) (xform : cfg -> path -> content -> fs -> option content * list path)
+         (sxform : st -> cfg -> path -> content -> fs -> (option content * list path) * st)
+         (ff : bool) (c : cfg),
+    stateless cfg st xform sxform ->
+    forall items f s,
+      fst (run_batch_st cfg st sxform ff c items f s) = run_batch cfg xform ff c items f.
+
+Theorem C11_earlier_state_irrelevant :
+  forall (cfg st : Type) (xform : cfg -> path -> content -> fs -> option content * list path)
+         (sxform : st -> cfg -> path -> content -> fs -> (option content * list path) * st)
+         (ff : bool) (c : cfg) items f s s',
+    stateless cfg st xform sxform ->
+    fst (run_batch_st cfg st sxform ff c items f s) = fst (run_batch_st cfg st sxform ff c items f s').
+Proof. exact earlier_state_irrelevant. Qed.
+Print Assumptions C11_earlier_state_irrelevant.
+Check C11_earlier_state_irrelevant :
+  forall (cfg st : Type) (xform : cfg -> path -> content -> fs -> option content * list path)
+         (sxform : st -> cfg -> path -> content -> fs -> (option content * list path) * st)
+         (ff : bool) (c : cfg) items f s s',
+    stateless cfg st xform sxform ->
+    fst (run_batch_st cfg st sxform ff c items f s) = fst (run_batch_st cfg st sxform ff c items f s').
+
+Theorem C11_shared_cache_order_refuted :
+  Permutation rc_items (rev rc_items) /\
+  fs_get (fst (fst (run_batch_st N (option content) rc_sxform false 0 rc_items rc_fs None)))
+         ["out"; "nested"; "low.lua"]%string <>
+  fs_get (fst (fst (run_batch_st N (option content) rc_sxform false 0 (rev rc_items) rc_fs None)))
+         ["out"; "nested"; "low.lua"]%string /\
+  fs_get (fst (fst (run_batch_st N (option content) rc_sxform false 0 rc_items rc_fs (Some [9]))))
+         ["out"; "top.lua"]%string <>
+  fs_get (fst (run_batch N rc_xform false 0 rc_items rc_fs)) ["out"; "top.lua"]%string.
+Proof. exact shared_cache_order_refuted. Qed.
+Print Assumptions C11_shared_cache_order_refuted.
+Check C11_shared_cache_order_refuted :
+  Permutation rc_items (rev rc_items) /\
+  fs_get (fst (fst (run_batch_st N (option content) rc_sxform false 0 rc_items rc_fs None)))
+         ["out"; "nested"; "low.lua"]%string <>
+  fs_get (fst (fst (run_batch_st N (option content) rc_sxform false 0 (rev rc_items) rc_fs None)))
+         ["out"; "nested"; "low.lua"]%string /\
+  fs_get (fst (fst (run_batch_st N (option content) rc_sxform false 0 rc_items rc_fs (Some [9]))))
+         ["out"; "top.lua"]%string <>
+  fs_get (fst (run_batch N rc_xform false 0 rc_items rc_fs)) ["out"; "top.lua"]%string.
